@@ -222,8 +222,8 @@ class C15(Monitor):
             base = p[len(sub.outrel) + 1:]
             if base in ("cluster_config.json", "job_status.json", "config.json"):
                 self._mark(sub, "status", seq)
-            if base == "cluster_config.json" and d.get("op") == "create" and not os.path.exists(
-                    os.path.join(sub.out, "cluster_config.json.bk")):
+            if base == "config.json" and d.get("op") in ("create", "truncate"):
+                # JobSubmitter.create writes the stage's config.json: one submission of the stage
                 n = self._stage_no(sub)
                 self.submit_cmds[n] = self.submit_cmds.get(n, 0) + 1
                 if self.submit_cmds[n] > 1:
